@@ -232,6 +232,20 @@ CHECKS = {
         assumptions=["constructs behind confirmed generator defects are excluded by hazard tags and replayed as known findings"],
         design_ref="DESIGN.md §2 C11",
     ),
+    "C18": dict(
+        title="The IDL audit flags every breaking change and nothing else",
+        legs=[leg("TestC18Audit", module="idl", quick=(750, 4), thorough=(20000, 16), timeout_s=3000, prefixes=["c18."])],
+        level="exploration",
+        technique="property-based testing (rapid): generated programs x generated edit sequences from the documented catalogue (27 breaking, 29 compatible kinds) applied at drawn sites; oracle = independent reference audit over the model, cross-checked with the catalogue classification",
+        rule=("(old, new) pairs: new = old with 1..4 edits at drawn sites (scopes, prefixes, operations, struct/union/exception fields at any nesting depth, enums, services, methods, args, exceptions, typedefs in the root or in an included file, "
+              "namespaces, constants, docs, declaration/field order); old and new are rendered with independent lexical draws. Non-trivial: >=2 applied edits, or one edit at a site that is not the first of its kind, or through a typedef. "
+              "Distinct: sha256 of (old text, edit list)."),
+        level_text=("Exploration: the audit must fail iff the reference audit (the documented rules restated over the model) sees at least one breaking change; for single edits the catalogue's breaking/compatible flag must agree with the reference, "
+                    "and the ERROR output must name the edited declaration; the audit must never reject or crash on two valid programs."),
+        level_note="Trusted: the reference audit in h/idl/audit_ref.go (written from audit.go's doc comments and the property statement) and the edit catalogue in h/idl/edits.go.",
+        assumptions=["edits outside the documented catalogue are not generated", "byte<->i8 retypes and enum value swaps are in neither category and are not generated"],
+        design_ref="DESIGN.md §2 C18",
+    ),
 }
 
 NOT_APPLICABLE = [
